@@ -606,7 +606,11 @@ class Machine:
                 raise Unsupported('block fell through: %s bb%d' % (func.name, bb))
 
     def call_value(self, fv, argv):
-        if isinstance(fv, FnItem): return self.call(fv.name, argv)
+        if isinstance(fv, FnItem):
+            parts = split_path(strip_generics(fv.name))
+            if len(parts) >= 2 and parts[-2] in self.enums and parts[-1] in self.enums[parts[-2]]:
+                return self.make_adt(fv.name, list(argv))        # a tuple-variant constructor used as a function
+            return self.call(fv.name, argv)
         if isinstance(fv, Closure):
             return models.call_closure(self, fv, argv)
         raise Unsupported('call_value ' + repr(fv))
